@@ -122,6 +122,26 @@ func vfSpecYAML(name, kind, note string) string {
 
 type vfObj struct{ Kind, Note string }
 
+// vfPad is the padding character of oversized specs; a note "n7" followed by N padding characters
+// is written "n7+Nx" everywhere in the harness (models, histories).
+const vfPad = "x"
+
+func vfCompressNote(s string) string {
+	if len(s) <= 256 {
+		return s
+	}
+	t := strings.TrimRight(s, vfPad)
+	return fmt.Sprintf("%s+%d%s", t, len(s)-len(t), vfPad)
+}
+
+// vfWant is the object a successful create/update request stores.
+func vfWant(rq vfReq) vfObj {
+	if rq.Big > 0 {
+		return vfObj{rq.Kind, fmt.Sprintf("%s+%d%s", rq.Note, rq.Big, vfPad)}
+	}
+	return vfObj{rq.Kind, rq.Note}
+}
+
 // vfParseObj extracts (name, kind, note) from a stored / returned object spec.
 func vfParseObj(m map[string]interface{}) (string, vfObj, error) {
 	name, _ := m["name"].(string)
@@ -141,8 +161,9 @@ func vfParseObj(m map[string]interface{}) (string, vfObj, error) {
 	} else {
 		o.Note, _ = m["note"].(string)
 	}
+	o.Note = vfCompressNote(o.Note)
 	if name == "" || kind == "" {
-		return name, o, fmt.Errorf("no name/kind in %v", m)
+		return name, o, fmt.Errorf("no name/kind in (spec of %d keys)", len(m))
 	}
 	return name, o, nil
 }
@@ -216,7 +237,7 @@ func vfPorts(n int) ([]int, error) {
 }
 
 // vfNewCluster runs cluster.New with a watchdog: New retries forever when the server cannot start.
-func vfNewCluster(t *testing.T, opt *option.Options) cluster.Cluster {
+func vfNewCluster(t vfFataler, opt *option.Options) cluster.Cluster {
 	type res struct {
 		c   cluster.Cluster
 		err error
@@ -238,11 +259,17 @@ func vfNewCluster(t *testing.T, opt *option.Options) cluster.Cluster {
 	return nil
 }
 
-func vfOptions(t *testing.T, dir, name, role string, peerURL string) *option.Options {
+func vfOptions(t vfFataler, dir, name, role string, peerURL string) *option.Options {
 	return vfOptionsTimeout(t, dir, name, role, peerURL, "10s")
 }
 
-func vfOptionsTimeout(t *testing.T, dir, name, role string, peerURL string, requestTimeout string) *option.Options {
+func vfOptionsTimeout(t vfFataler, dir, name, role string, peerURL string, requestTimeout string) *option.Options {
+	return vfOptionsFull(t, dir, name, role, peerURL, requestTimeout, 0)
+}
+
+// vfOptionsFull: maxSend > 0 sets the member's cluster.max-call-send-msg-size option (the largest
+// message its etcd client sends; default 10 MiB, which is also the embedded server's request limit).
+func vfOptionsFull(t vfFataler, dir, name, role string, peerURL string, requestTimeout string, maxSend int) *option.Options {
 	ports, err := vfPorts(3)
 	if err != nil {
 		t.Fatalf("VF-INCONCLUSIVE no free ports: %v", err)
@@ -252,6 +279,9 @@ func vfOptionsTimeout(t *testing.T, dir, name, role string, peerURL string, requ
 	opt.ClusterName = "vf-cluster"
 	opt.ClusterRole = role
 	opt.ClusterRequestTimeout = requestTimeout
+	if maxSend > 0 {
+		opt.Cluster.MaxCallSendMsgSize = maxSend
+	}
 	if role == "primary" {
 		cu := fmt.Sprintf("http://127.0.0.1:%d", ports[0])
 		pu := fmt.Sprintf("http://127.0.0.1:%d", ports[1])
@@ -304,8 +334,48 @@ func vfOwnRouter(s *Server) http.Handler {
 }
 
 type vfAPIBed struct {
-	members  []*vfAPIMember // [0] primary, [1] secondary
+	members  []*vfAPIMember // [0] primary, [1] secondary, [2] short-timeout
 	observer cluster.Cluster
+	dir      string
+	peer     string
+	leavers  int
+}
+
+// vfStartLeaver adds one more API member to the cluster (client-only cluster member + supervisor +
+// api Server): the member that will leave the cluster in this round. Creating an api.Server
+// registers its entries in the process-wide API registry, so the primary's group is registered
+// again afterwards and the primary's real mux reloaded (as vfStartAPIBed does).
+func (b *vfAPIBed) vfStartLeaver(t vfFataler) *vfAPIMember {
+	b.leavers++
+	name := fmt.Sprintf("vf-leaver-%d", b.leavers)
+	opt := vfOptions(t, b.dir, name, "secondary", b.peer)
+	cls := vfNewCluster(t, opt)
+	super := supervisor.MustNew(opt, cls)
+	server := MustNewServer(opt, cls, super, nil)
+	p := b.members[0].server
+	p.registerAPIs()
+	p.router.reloadAPIs()
+	rec := httptest.NewRecorder()
+	p.router.ServeHTTP(rec, httptest.NewRequest("GET", APIPrefix+"/healthz", nil))
+	if rec.Code != 200 {
+		t.Fatalf("VF-INCONCLUSIVE admin API routes of the primary not loaded after a member joined: healthz => %d", rec.Code)
+	}
+	return &vfAPIMember{name: name, opt: opt, cls: cls, super: super, server: server, handler: vfOwnRouter(server)}
+}
+
+// vfStop shuts the member down the way the process does on exit: api server, supervisor, cluster
+// member (closing the cluster member ends its session, which revokes the member's lease).
+func (m *vfAPIMember) vfStop() {
+	if m.cls == nil {
+		return
+	}
+	wg := &sync.WaitGroup{}
+	wg.Add(1)
+	m.server.Close(wg)
+	m.super.Close(nil2wg())
+	wg.Add(1)
+	m.cls.Close(wg)
+	m.cls = nil
 }
 
 func vfStartAPIBed(t *testing.T) *vfAPIBed {
@@ -314,7 +384,12 @@ func vfStartAPIBed(t *testing.T) *vfAPIBed {
 	popt := vfOptions(t, dir, "vf-primary", "primary", "")
 	pcls := vfNewCluster(t, popt)
 	peer := popt.Cluster.ListenPeerURLs[0]
-	sopt := vfOptions(t, dir, "vf-secondary", "secondary", peer)
+	// the secondary is configured with a small cluster.max-call-send-msg-size: a spec larger than
+	// that is rejected at the object write when the request is served by this member
+	sopt := vfOptionsFull(t, dir, "vf-secondary", "secondary", peer, "10s", vfSmallSendLimit)
+	if sopt.Cluster.MaxCallSendMsgSize != vfSmallSendLimit {
+		t.Fatalf("VF-INCONCLUSIVE option cluster.max-call-send-msg-size not taken: %d", sopt.Cluster.MaxCallSendMsgSize)
+	}
 	scls := vfNewCluster(t, sopt)
 	oopt := vfOptions(t, dir, "vf-observer", "secondary", peer)
 	ocls := vfNewCluster(t, oopt)
@@ -330,7 +405,7 @@ func vfStartAPIBed(t *testing.T) *vfAPIBed {
 	sserver := MustNewServer(sopt, scls, ssuper, nil)
 	psuper := supervisor.MustNew(popt, pcls)
 	pserver := MustNewServer(popt, pcls, psuper, nil)
-	b := &vfAPIBed{observer: ocls}
+	b := &vfAPIBed{observer: ocls, dir: dir, peer: peer}
 	b.members = []*vfAPIMember{
 		{name: "primary", opt: popt, cls: pcls, super: psuper, server: pserver, handler: pserver.router},
 		{name: "secondary", opt: sopt, cls: scls, super: ssuper, server: sserver, handler: vfOwnRouter(sserver)},
@@ -375,16 +450,22 @@ func nil2wg() *sync.WaitGroup {
 // requests
 
 type vfReq struct {
-	Member int    `json:"member"`
-	Op     string `json:"op"` // create | update | delete | get | list | update-badname
+	Member int    `json:"member"` // 0 primary, 1 secondary, 2 short-timeout, 3 the leaving member of the round
+	Op     string `json:"op"`     // create | update | delete | get | list | update-badname
 	Name   string `json:"name"`
 	Kind   string `json:"kind,omitempty"`
 	Note   string `json:"note,omitempty"`
+	// Big > 0: the note is padded with Big characters, which makes the spec larger than the
+	// request limit of the store (the object write is rejected by etcd)
+	Big int `json:"big,omitempty"`
 }
 
 func (r vfReq) String() string {
 	switch r.Op {
 	case "create", "update", "update-badname":
+		if r.Big > 0 {
+			return fmt.Sprintf("m%d:%s(%s %s/%s+%d%s OVERSIZED)", r.Member, r.Op, r.Name, r.Kind, r.Note, r.Big, vfPad)
+		}
 		return fmt.Sprintf("m%d:%s(%s %s/%s)", r.Member, r.Op, r.Name, r.Kind, r.Note)
 	}
 	return fmt.Sprintf("m%d:%s(%s)", r.Member, r.Op, r.Name)
@@ -416,13 +497,17 @@ func (r vfResp) success() bool {
 
 func vfDo(m *vfAPIMember, rq vfReq, clock *int64, client int) vfResp {
 	var hr *http.Request
+	note := rq.Note
+	if rq.Big > 0 {
+		note += strings.Repeat(vfPad, rq.Big)
+	}
 	switch rq.Op {
 	case "create":
-		hr = httptest.NewRequest("POST", APIPrefix+ObjectPrefix, bytes.NewBufferString(vfSpecYAML(rq.Name, rq.Kind, rq.Note)))
+		hr = httptest.NewRequest("POST", APIPrefix+ObjectPrefix, bytes.NewBufferString(vfSpecYAML(rq.Name, rq.Kind, note)))
 	case "update":
-		hr = httptest.NewRequest("PUT", APIPrefix+ObjectPrefix+"/"+rq.Name, bytes.NewBufferString(vfSpecYAML(rq.Name, rq.Kind, rq.Note)))
+		hr = httptest.NewRequest("PUT", APIPrefix+ObjectPrefix+"/"+rq.Name, bytes.NewBufferString(vfSpecYAML(rq.Name, rq.Kind, note)))
 	case "update-badname":
-		hr = httptest.NewRequest("PUT", APIPrefix+ObjectPrefix+"/"+rq.Name, bytes.NewBufferString(vfSpecYAML(rq.Name+"-other", rq.Kind, rq.Note)))
+		hr = httptest.NewRequest("PUT", APIPrefix+ObjectPrefix+"/"+rq.Name, bytes.NewBufferString(vfSpecYAML(rq.Name+"-other", rq.Kind, note)))
 	case "delete":
 		hr = httptest.NewRequest("DELETE", APIPrefix+ObjectPrefix+"/"+rq.Name, nil)
 	case "get":
@@ -437,6 +522,9 @@ func vfDo(m *vfAPIMember, rq vfReq, clock *int64, client int) vfResp {
 	out.resp = atomic.AddInt64(clock, 1)
 	out.status = rec.Code
 	out.body = rec.Body.String()
+	if len(out.body) > 4096 && rq.Op != "list" && rq.Op != "get" {
+		out.body = out.body[:4096] + "...(cut)"
+	}
 	if v := rec.Header().Get(ConfigVersionKey); v != "" {
 		if n, err := strconv.ParseInt(v, 10, 64); err == nil {
 			out.version, out.hasVer = n, true
@@ -465,7 +553,29 @@ type vfRound struct {
 	// vfLongHold; R[0] is sent to the short-timeout member at once (=> 503 after its 2s timeout),
 	// R[1] 150 ms later (queued behind R[0] inside that member), R[2:] when R[0] has answered
 	LongHold []vfReq
+	// departure phase (sequential, right after the seeding): a fourth API member joins the cluster,
+	// serves Via (member 3), leaves the cluster (How: "close" = graceful shutdown; "purge" = DELETE
+	// /status/members/<name> on the primary, then shutdown), then After is sent to remaining members
+	Departure *vfDeparture
+	NOversize int
 }
+
+type vfDeparture struct {
+	Via   []vfReq
+	How   string
+	After []vfReq
+}
+
+// Oversized specs. A spec whose note is padded with one of vfBigSizes characters is larger than the
+// 10 MiB a single etcd request may carry (embedded server: max-request-bytes; clients:
+// max-call-send-msg-size default): its object write fails on every member. Validating such a spec
+// costs seconds, so most oversized requests use the cheaper route: the secondary member is
+// configured with max-call-send-msg-size = vfSmallSendLimit, and a spec padded with one of
+// vfMidSizes characters is too large for that member only (the primary stores it).
+const vfSmallSendLimit = 256 << 10
+
+var vfBigSizes = []int{10<<20 + 1<<10, 11 << 20}
+var vfMidSizes = []int{vfSmallSendLimit + 1<<10, vfSmallSendLimit + 64<<10}
 
 func (r *vfRound) String() string {
 	var sb strings.Builder
@@ -474,6 +584,9 @@ func (r *vfRound) String() string {
 		fmt.Fprintf(&sb, "client %d: %v\n", i, c)
 	}
 	fmt.Fprintf(&sb, "observer hold: %dms\n", r.HoldMs)
+	if d := r.Departure; d != nil {
+		fmt.Fprintf(&sb, "departure phase (before everything else, sequential): member 3 joins, serves %v, leaves by %s, then %v\n", d.Via, d.How, d.After)
+	}
 	if len(r.LongHold) > 0 {
 		fmt.Fprintf(&sb, "long-hold phase (observer holds %v, member 2 has request timeout %v): %v\n", vfLongHold, vfShortTimeout, r.LongHold)
 	}
@@ -523,10 +636,59 @@ func vfGenRound(rt *rapid.T) *vfRound {
 		}
 		return rq
 	}
+	// every fifth round (and the first) has a departure phase (a fixed share: it costs about a
+	// second); it is sequential, so the generator knows the stored objects and draws requests whose
+	// outcome it knows: the last request through the leaving member and the first one after its
+	// departure succeed by construction
+	vfRoundNo++
+	if rapid.Bool().Draw(rt, "departureOnReplay") && vfRoundNo == 1 || vfRoundNo%5 == 1 {
+		present := map[string]string{}
+		for _, sd := range r.Seed {
+			present[sd.Name] = sd.Kind
+		}
+		genSeq := func(member int, label string, mustSucceed bool) vfReq {
+			rq := vfReq{Member: member, Name: rapid.SampledFrom(names).Draw(rt, label+"name")}
+			if kind, exists := present[rq.Name]; exists {
+				rq.Op = rapid.SampledFrom([]string{"update", "update", "delete", "create"}).Draw(rt, label+"op")
+				if mustSucceed && rq.Op == "create" {
+					rq.Op = "update"
+				}
+				rq.Kind = kind
+			} else {
+				rq.Op = rapid.SampledFrom([]string{"create", "create", "create", "update", "delete"}).Draw(rt, label+"op")
+				if mustSucceed {
+					rq.Op = "create"
+				}
+				rq.Kind = usual[rq.Name]
+			}
+			_, exists := present[rq.Name]
+			switch {
+			case rq.Op == "delete":
+				rq.Kind = ""
+				delete(present, rq.Name)
+			case rq.Op == "create" && !exists, rq.Op == "update" && exists:
+				rq.Note = note()
+				present[rq.Name] = rq.Kind
+				applied = append(applied, rq)
+			default:
+				rq.Note = note()
+			}
+			return rq
+		}
+		d := &vfDeparture{How: rapid.SampledFrom([]string{"close", "purge", "close"}).Draw(rt, "departureHow")}
+		nVia := rapid.IntRange(1, 3).Draw(rt, "nVia")
+		for i := 0; i < nVia; i++ {
+			d.Via = append(d.Via, genSeq(3, "via.", i == nVia-1))
+		}
+		nAfter := rapid.IntRange(1, 2).Draw(rt, "nAfter")
+		for i := 0; i < nAfter; i++ {
+			d.After = append(d.After, genSeq(rapid.IntRange(0, 1).Draw(rt, "after.member"), "after.", i == 0))
+		}
+		r.Departure = d
+	}
 	// every fifth round has a long-hold phase (a fixed share, not a draw: the phase costs ~3 s, and
 	// rapid's per-run bias would make it anything between 0 and 40% of the rounds); when a fail file
 	// is replayed the drawn flag takes over
-	vfRoundNo++
 	if rapid.Bool().Draw(rt, "longHoldOnReplay") && vfRoundNo == 1 || vfRoundNo%5 == 3 {
 		n := rapid.IntRange(3, 5).Draw(rt, "nLongHold")
 		for i := 0; i < n; i++ {
@@ -579,6 +741,40 @@ func vfGenRound(rt *rapid.T) *vfRound {
 		r.Clients = append(r.Clients, script)
 	}
 	r.HoldMs = rapid.SampledFrom([]int{0, 1, 3, 8}).Draw(rt, "holdMs")
+	// Oversized specs (fixed shares, not draws, because of their cost). Every third round: one or
+	// two requests whose spec is too large for the etcd client of the secondary member (mostly sent
+	// to that member: the object write of the request is then rejected; sometimes to the primary,
+	// which stores it). Rounds 2, 26, 50, ...: one request whose spec is larger than any etcd request
+	// may be (10 MiB; validating it costs seconds). Mostly creates of a name nobody else uses (the
+	// object write is then reached by construction), sometimes updates of a name of the round.
+	mid := rapid.Bool().Draw(rt, "oversizeOnReplay") && vfRoundNo == 1 || vfRoundNo%3 == 0
+	huge := rapid.Bool().Draw(rt, "hugeOnReplay") && vfRoundNo == 1 || vfRoundNo%24 == 2
+	if mid || huge {
+		r.NOversize = 1
+		if mid {
+			r.NOversize = rapid.IntRange(1, 2).Draw(rt, "nOversize")
+		}
+		for i := 0; i < r.NOversize; i++ {
+			rq := vfReq{Op: "create", Name: fmt.Sprintf("vfbig-%d", i), Kind: rapid.SampledFrom(vfKinds).Draw(rt, "big.kind")}
+			if huge && i == 0 {
+				rq.Member = rapid.IntRange(0, 1).Draw(rt, "big.member")
+				rq.Big = rapid.SampledFrom(vfBigSizes).Draw(rt, "big.size")
+			} else {
+				rq.Member = rapid.SampledFrom([]int{1, 1, 1, 0}).Draw(rt, "mid.member")
+				rq.Big = rapid.SampledFrom(vfMidSizes).Draw(rt, "mid.size")
+			}
+			if rapid.IntRange(0, 3).Draw(rt, "big.update") == 0 {
+				rq.Op, rq.Name = "update", rapid.SampledFrom(names).Draw(rt, "big.name")
+				rq.Kind = usual[rq.Name]
+			}
+			rq.Note = note()
+			c := rapid.IntRange(0, len(r.Clients)-1).Draw(rt, "big.client")
+			at := rapid.IntRange(0, len(r.Clients[c])).Draw(rt, "big.at")
+			script := append([]vfReq{}, r.Clients[c][:at]...)
+			script = append(script, rq)
+			r.Clients[c] = append(script, r.Clients[c][at:]...)
+		}
+	}
 	return r
 }
 
@@ -639,6 +835,14 @@ func TestVerifC18API(t *testing.T) {
 		t.Fatalf("VF-INCONCLUSIVE observer mutex: %v", err)
 	}
 
+	// what the expensive phases cost (wall time, summed over the process)
+	var costDeparture, costLongHold time.Duration
+	var costOversize, costHuge, nOversize, nHuge int64
+	defer func() {
+		vf.Note(fmt.Sprintf("wall time spent in departure phases %v, in long-hold phases %v, in %d requests with a spec above %d KiB %v, in %d requests with a spec above 10 MiB %v (requests of concurrent clients summed)",
+			costDeparture.Round(10*time.Millisecond), costLongHold.Round(10*time.Millisecond), nOversize, vfSmallSendLimit>>10, time.Duration(costOversize).Round(10*time.Millisecond),
+			nHuge, time.Duration(costHuge).Round(10*time.Millisecond)))
+	}()
 	rapid.Check(t, func(rt *rapid.T) {
 		round := vfGenRound(rt)
 		pcls := bed.members[0].cls
@@ -679,6 +883,45 @@ func TestVerifC18API(t *testing.T) {
 			obsHolds int
 			obsSeen  []vfObsSample
 		)
+		// ---- departure phase: a member serves mutations and then leaves the cluster
+		if d := round.Departure; d != nil {
+			tDep := time.Now()
+			lv := bed.vfStartLeaver(rt)
+			stopped := make(chan struct{})
+			stop := func() {
+				go func() { lv.vfStop(); close(stopped) }()
+				select {
+				case <-stopped:
+				case <-time.After(3 * time.Minute):
+					rt.Fatalf("VF-INCONCLUSIVE the leaving member did not shut down within 3 minutes\n%s", round)
+				}
+			}
+			viaOK, afterOK := false, false
+			for _, rq := range d.Via {
+				rs := vfDo(lv, rq, &clock, -3)
+				all = append(all, rs)
+				viaOK = viaOK || rs.success()
+			}
+			if d.How == "purge" {
+				rec := httptest.NewRecorder()
+				bed.members[0].handler.ServeHTTP(rec, httptest.NewRequest("DELETE", APIPrefix+"/status/members/"+lv.name, nil))
+				if rec.Code != http.StatusOK {
+					stop()
+					rt.Fatalf("VF-INCONCLUSIVE purge of %s on the primary => %d %s", lv.name, rec.Code, rec.Body.String())
+				}
+			}
+			stop()
+			for _, rq := range d.After {
+				rs := vfDo(bed.members[rq.Member], rq, &clock, -3)
+				all = append(all, rs)
+				afterOK = afterOK || rs.success()
+			}
+			costDeparture += time.Since(tDep)
+			vf.Class("departure-phase:" + d.How)
+			if viaOK && afterOK {
+				vf.Class("member-that-served-the-latest-mutation-left-then-another-mutation-succeeded")
+			}
+		}
 		// ---- long-hold phase: a member of the cluster holds the lock for longer than the request
 		// timeout of the short-timeout API member
 		type vfHold struct{ acq, rel int64 }
@@ -730,6 +973,7 @@ func TestVerifC18API(t *testing.T) {
 			if uerr != nil {
 				rt.Fatalf("VF-INCONCLUSIVE observer Unlock: %v", uerr)
 			}
+			costLongHold += time.Since(t0)
 			vf.Class("long-hold-phase")
 		}
 		// a 503 is explained (and must have changed nothing) when another member verifiably held the
@@ -798,7 +1042,15 @@ func TestVerifC18API(t *testing.T) {
 				defer wg.Done()
 				<-start
 				for _, rq := range script {
+					tReq := time.Now()
 					rs := vfDo(bed.members[rq.Member], rq, &clock, ci)
+					if rq.Big >= 10<<20 {
+						atomic.AddInt64(&costHuge, int64(time.Since(tReq)))
+						atomic.AddInt64(&nHuge, 1)
+					} else if rq.Big > 0 {
+						atomic.AddInt64(&costOversize, int64(time.Since(tReq)))
+						atomic.AddInt64(&nOversize, 1)
+					}
 					mu.Lock()
 					all = append(all, rs)
 					mu.Unlock()
@@ -879,6 +1131,12 @@ func TestVerifC18API(t *testing.T) {
 		for _, r := range all {
 			if lockTimeout(r) {
 				vf.Class("503-lock-timeout-while-another-member-held-the-lock")
+				continue
+			}
+			if r.req.Big > 0 && r.status >= 500 {
+				// the store rejected the object write of an oversized spec: a failed request; it must
+				// have changed nothing and consumed no version (ledger and replay below)
+				vf.Class(fmt.Sprintf("oversized-%s=>%d-object-write-rejected-by-the-store", r.req.Op, r.status))
 				continue
 			}
 			if r.status >= 500 && trouble == "" {
@@ -971,7 +1229,7 @@ func TestVerifC18API(t *testing.T) {
 					vf.Violation(rt, "create-succeeded-on-existing-name", "in version order, %s created a name that exists (%s)\n%s", r, vfModelStr(cur), history())
 					return
 				}
-				next[r.req.Name] = vfObj{r.req.Kind, r.req.Note}
+				next[r.req.Name] = vfWant(r.req)
 			case "update":
 				if !exists {
 					vf.Violation(rt, "update-succeeded-on-missing-name", "in version order, %s updated a name that does not exist (%s)\n%s", r, vfModelStr(cur), history())
@@ -981,10 +1239,10 @@ func TestVerifC18API(t *testing.T) {
 					vf.Violation(rt, "update-succeeded-with-another-kind", "in version order, %s changed the kind of %s\n%s", r, vfModelStr(cur), history())
 					return
 				}
-				if o == (vfObj{r.req.Kind, r.req.Note}) {
+				if o == vfWant(r.req) {
 					vf.Class("identical-update-succeeded-with-its-own-version")
 				}
-				next[r.req.Name] = vfObj{r.req.Kind, r.req.Note}
+				next[r.req.Name] = vfWant(r.req)
 			case "delete":
 				if !exists {
 					vf.Violation(rt, "delete-succeeded-on-missing-name", "in version order, %s deleted a name that does not exist (%s)\n%s", r, vfModelStr(cur), history())
@@ -1022,7 +1280,7 @@ func TestVerifC18API(t *testing.T) {
 		}
 		// every other answer is explained by a state compatible with its real-time interval
 		for _, r := range all {
-			if r.success() || lockTimeout(r) {
+			if r.success() || lockTimeout(r) || r.req.Big > 0 && r.status >= 500 {
 				continue
 			}
 			lo, hi := v0, v0+k
@@ -1067,6 +1325,11 @@ func TestVerifC18API(t *testing.T) {
 					}
 					want = "the stored objects"
 				}
+			}
+			if !explained && r.req.Big > 0 && (r.status == http.StatusBadRequest || r.status == http.StatusRequestEntityTooLarge) {
+				// statement and docs are silent on how an oversized spec is refused
+				vf.Class("ambiguous-oversized-spec-refused-with-4xx")
+				continue
 			}
 			if !explained {
 				key := fmt.Sprintf("unexplained-answer op=%s status=%d", r.req.Op, r.status)
